@@ -22,14 +22,14 @@ type T struct {
 	Keys []string // o
 }
 
-func tNull() *T          { return &T{K: 'n'} }
-func tBool(b bool) *T    { return &T{K: map[bool]byte{true: 't', false: 'f'}[b]} }
-func tInt(i int64) *T    { return &T{K: 'i', I: i} }
-func tFlt(s string) *T   { return &T{K: 'd', S: s} }
-func tBig(s string) *T   { return &T{K: 'b', S: s} }
-func tStr(s string) *T   { return &T{K: 's', S: s} }
-func tArr(k ...*T) *T    { return &T{K: 'a', Kids: k} }
-func (t *T) leaf() bool  { return t.K != 'a' && t.K != 'o' }
+func tNull() *T         { return &T{K: 'n'} }
+func tBool(b bool) *T   { return &T{K: map[bool]byte{true: 't', false: 'f'}[b]} }
+func tInt(i int64) *T   { return &T{K: 'i', I: i} }
+func tFlt(s string) *T  { return &T{K: 'd', S: s} }
+func tBig(s string) *T  { return &T{K: 'b', S: s} }
+func tStr(s string) *T  { return &T{K: 's', S: s} }
+func tArr(k ...*T) *T   { return &T{K: 'a', Kids: k} }
+func (t *T) leaf() bool { return t.K != 'a' && t.K != 'o' }
 func (t *T) size() int {
 	n := 1
 	for _, k := range t.Kids {
@@ -422,12 +422,12 @@ type UM struct {
 
 // Frag is one fragment of a target path.
 type Frag struct {
-	K   byte   // c child, n index, w wildcard, u union, s slice, d descent, f filter
-	Key string // c; f: member name compared ("" with FSelf: the element itself)
-	N   int    // n; f: the integer compared with
-	U   []UM
-	Sl  []int // s: 0 to 3 numbers as in jp.Slice
-	FSelf bool // f: (@ == N) instead of (@.Key == N)
+	K     byte   // c child, n index, w wildcard, u union, s slice, d descent, f filter
+	Key   string // c; f: member name compared ("" with FSelf: the element itself)
+	N     int    // n; f: the integer compared with
+	U     []UM
+	Sl    []int // s: 0 to 3 numbers as in jp.Slice
+	FSelf bool  // f: (@ == N) instead of (@.Key == N)
 }
 
 type Target []Frag
@@ -650,9 +650,6 @@ func features(ts []Target) map[string]bool {
 				m["slice-bounds"] = true
 			case 'f':
 				m["filter-first-only"] = true
-				if i != len(tg)-1 {
-					m["filter-not-last"] = true
-				}
 			case 'd':
 				if i == len(tg)-1 || tg[i+1].K == 'f' {
 					m["trailing-descent"] = true
